@@ -35,6 +35,7 @@ def setup(ctx):
     ctx.require("monitor", "reject_checked", 200)
     ctx.require("monitor", "handler_entries", 100)
     ctx.require("monitor", "upload_entries", 10)
+    ctx.require("monitor", "incomplete_lines_checked", 50)
 
 
 def run_line(data: bytes, uploads: bool, cuts=()):
@@ -84,7 +85,18 @@ def judge(ctx, data: bytes, label: str, uploads: bool, cuts=()):
         if len(data) > 1024:
             line, verdict, info, expect = data, "reject", "too-long-no-crlf", {59}
         else:
-            ctx.undecided("no-crlf-short (not a request line yet)")
+            # no CRLF and within the limit: there is no request line yet, so nothing may be dispatched
+            # (the request timeout answers such a client); a bare LF does not end a request line
+            obs = run_line(data, uploads, cuts)
+            ctx.count("monitor", "incomplete_lines_checked")
+            invoked = ("H" if obs["handler"] else "") + ("M" if obs["mw"] else "") + ("U" if obs["upload"] else "")
+            if invoked:
+                term = "bare-lf" if b"\n" in data else ("bare-cr" if b"\r" in data else "none")
+                ctx.violation(f"invalid-reached-handler:no-crlf:terminator={term}:invoked={invoked}",
+                              "bytes without a CRLF-terminated request line were dispatched", {"request": data, "uploads_enabled": uploads, "observed": {"status": obs["status"], "handler": obs["handler"][:1]}})
+            elif obs["status"] not in (40, 59):
+                ctx.violation(f"invalid-wrong-status:no-crlf:got={obs['status']}", f"incomplete request answered {obs['status']} (expected the 40 timeout, or 59)", {"request": data, "stream": obs["stream"][:80]})
+            ctx.case(("no-crlf", label.split(":")[0], b"\n" in data, obs["status"], invoked), True, sample={"request": data[:80], "status": obs["status"]})
             return
     else:
         line = data[:i]
@@ -183,6 +195,12 @@ def gen_accept(rng):
 def run(ctx):
     rng = ctx.rng("lines")
     n = ctx.pick(36000, 1000000) // ctx.nshards
+    fixed_incomplete = [b"gemini://example.org/\n", b"gemini://example.org/\r", b"gemini://example.org/", b"gemini://example.org/\n\n", b"titan://example.org/x;size=1\nA",
+                        b"gemini://example.org/a\nb", b"\n", b"gemini://example.org/\r \n"]
+    if ctx.shard == 0:
+        for data in fixed_incomplete:
+            for uploads in (False, True):
+                judge(ctx, data, "incomplete", uploads)
     fixed = [
         (b"gemini://example.org/\r\n", "plain"),
         (b"gemini://:@host/\r\n", "corrupt:userinfo"),
